@@ -11,8 +11,16 @@ package ackhandler
 // from the frame callbacks only (a packet leaves the ledger when the handler reports its
 // frame acknowledged or lost), never from handler fields.
 //
+// plus the probe allowance: 2 probe packets per expiry of the loss-detection timer (counted from
+// the timeout events, never from handler fields), used up by the probe packets the harness
+// sends, and void once an acknowledgement newly acknowledges an ack-eliciting packet (that
+// ends the PTO episode: the backoff is reset and the timer re-armed in the future).
+//
 // Oracle (after every event, and before every release of new data):
 //   SendMode(now) == SendAny  =>  sum of the ledger (bytes in flight) < congestion window
+//   SendMode(now) == SendPTOAppData (releases ack-eliciting data regardless of the window)
+//                             =>  bytes in flight < congestion window, or the probe allowance
+//                                 is not used up (the packet released is a probe packet)
 //   2*mds <= cwnd <= 10000*mds + mds
 
 import (
@@ -49,11 +57,12 @@ type c20SphCfg struct {
 	depth    int
 	sizes    []int // 0 full, 1 small (100 bytes)
 	maxAcks  int   // pure-ACK packets per history
-	acks     []int // 0 oldest, 1 newest, 2 all outstanding
+	acks     []int // 0 oldest, 1 newest, 2 all outstanding, 3 the fourth-oldest of >= 5 outstanding (packet threshold: exactly the oldest is declared lost, the rest of the flight stays outstanding)
 	probes   []int // 0 new data as probe, 1 QueueProbePacket first
 	steps    []time.Duration
 	maxMTU   int
 	flood    bool // "flood": send full packets (waiting for the pacer) until SendMode stops saying SendAny
+	maxTO    int  // loss-detection timeouts per history (0: unlimited)
 }
 
 type c20FH struct {
@@ -75,6 +84,8 @@ type c20SphInst struct {
 	mds      protocol.ByteCount
 	mtuN     int
 	sackN    int
+	toN      int
+	owed     int // probe allowance: 2 per timer expiry, -1 per probe packet sent, void after an ACK that newly acknowledges an ack-eliciting packet
 	nLost    int // callbacks seen during the current op
 	nAcked   int
 	cbFail   *explore.Fail
@@ -122,7 +133,7 @@ func (in *c20SphInst) sorted() []protocol.PacketNumber {
 }
 
 func (in *c20SphInst) ackable(kind int, pns []protocol.PacketNumber) bool {
-	if len(pns) == 0 || (kind > 0 && len(pns) < 2) {
+	if len(pns) == 0 || (kind > 0 && len(pns) < 2) || (kind == 3 && len(pns) < 5) {
 		return false
 	}
 	young := func(pn protocol.PacketNumber) bool { return in.now.Sub(in.led[pn].t) <= c20MaxRTT }
@@ -131,6 +142,8 @@ func (in *c20SphInst) ackable(kind int, pns []protocol.PacketNumber) bool {
 		return young(pns[0])
 	case 1:
 		return young(pns[len(pns)-1])
+	case 3:
+		return young(pns[3])
 	}
 	for _, pn := range pns {
 		if !young(pn) {
@@ -166,7 +179,7 @@ func (in *c20SphInst) Ops() []explore.Op {
 			ops = append(ops, explore.Op{N: "ack", A: k})
 		}
 	}
-	if !in.h.GetLossDetectionTimeout().IsZero() {
+	if !in.h.GetLossDetectionTimeout().IsZero() && (c.maxTO == 0 || in.toN < c.maxTO) {
 		ops = append(ops, explore.Op{N: "timeout"})
 	}
 	if mode == SendPacingLimited {
@@ -200,6 +213,11 @@ func (in *c20SphInst) gate(where string) (SendMode, *explore.Fail) {
 	if mode == SendAny && in.inflight >= cw {
 		return mode, explore.Failf("sendany-while-window-full:"+where,
 			"SendMode = SendAny after %s although %d bytes are in flight (%d ack-eliciting packets not yet acknowledged or declared lost) and the congestion window is %d (handler's own counter: %d)",
+			where, in.inflight, len(in.led), cw, in.h.bytesInFlight)
+	}
+	if mode == SendPTOAppData && in.owed == 0 && in.inflight >= cw {
+		return mode, explore.Failf("pto-mode-without-pending-probe:"+where,
+			"SendMode = SendPTOAppData (releases ack-eliciting data regardless of the window) after %s although no probe packet is pending (every probe the loss-detection timer authorised was sent, or an acknowledgement of new data ended the PTO episode), %d bytes are in flight (%d ack-eliciting packets not yet acknowledged or declared lost) and the congestion window is %d (handler's own counter: %d)",
 			where, in.inflight, len(in.led), cw, in.h.bytesInFlight)
 	}
 	if cw < 2*in.mds {
@@ -267,6 +285,9 @@ func (in *c20SphInst) Apply(op explore.Op) *explore.Fail {
 			detail = fmt.Sprintf("queued=%v", in.h.QueueProbePacket(protocol.Encryption1RTT))
 		}
 		in.sendData(in.mds, false)
+		if in.owed > 0 {
+			in.owed--
+		}
 	case "ack":
 		pns := in.sorted()
 		var ranges []wire.AckRange
@@ -276,6 +297,8 @@ func (in *c20SphInst) Apply(op explore.Op) *explore.Fail {
 		case 1:
 			l := pns[len(pns)-1]
 			ranges = []wire.AckRange{{Smallest: l, Largest: l}}
+		case 3:
+			ranges = []wire.AckRange{{Smallest: pns[3], Largest: pns[3]}}
 		case 2:
 			for i := len(pns) - 1; i >= 0; i-- {
 				if k := len(ranges); k > 0 && ranges[k-1].Smallest == pns[i]+1 {
@@ -287,12 +310,17 @@ func (in *c20SphInst) Apply(op explore.Op) *explore.Fail {
 		}
 		_, err := in.h.ReceivedAck(&wire.AckFrame{AckRanges: ranges}, protocol.Encryption1RTT, in.now)
 		explore.Must(err == nil, "ReceivedAck(%v): %v", ranges, err)
+		if in.nAcked > 0 {
+			in.owed = 0
+		}
 	case "timeout":
 		if t := in.h.GetLossDetectionTimeout(); t > in.now {
 			in.now = t
 		}
 		err := in.h.OnLossDetectionTimeout(in.now)
 		explore.Must(err == nil, "OnLossDetectionTimeout: %v", err)
+		in.toN++
+		in.owed += 2
 	case "advpace":
 		t := in.h.TimeUntilSend()
 		explore.Must(t > in.now, "advpace not enabled")
@@ -324,7 +352,7 @@ func (in *c20SphInst) Apply(op explore.Op) *explore.Fail {
 	} else if in.h.congestion.InSlowStart() {
 		ph = "ss"
 	}
-	in.outcome = fmt.Sprintf("%s%d %s -> mode=%s %s %s acked=%d lost=%d", op.N, op.A, detail, mode, room, ph, min(in.nAcked, 2), min(in.nLost, 2))
+	in.outcome = fmt.Sprintf("%s%d %s -> mode=%s %s %s acked=%d lost=%d owed=%d", op.N, op.A, detail, mode, room, ph, min(in.nAcked, 2), min(in.nLost, 2), min(in.owed, 3))
 	return nil
 }
 
@@ -345,7 +373,7 @@ func (in *c20SphInst) Key() string {
 	var sb strings.Builder
 	base := int64(in.now)
 	sb.WriteString(canon.Dump(in.h, canon.Options{TimeBase: base, SkipField: c20SkipSph}))
-	fmt.Fprintf(&sb, "|mds=%d mtu=%d sack=%d|", in.mds, in.mtuN, in.sackN)
+	fmt.Fprintf(&sb, "|mds=%d mtu=%d sack=%d to=%d owed=%d|", in.mds, in.mtuN, in.sackN, in.toN*min(in.cfg.maxTO, 1), in.owed)
 	for _, pn := range in.sorted() {
 		p := in.led[pn]
 		fmt.Fprintf(&sb, "%d:%d@%d,", pn, p.size, int64(p.t)-base)
